@@ -920,8 +920,9 @@ def export_obj(
 
         # the format for a single vertex reference of a face
         face_format = face_formats[tuple(face_type)]
-        # add the exported faces to the export if available
-        if hasattr(current, "faces"):
+        # add the exported faces to the export if there are any:
+        # zero faces would be written as an `f` line without indices
+        if hasattr(current, "faces") and len(current.faces) > 0:
             export.append(
                 "f "
                 + util.array_to_string(
